@@ -6,8 +6,8 @@ package txn
 import (
 	"fmt"
 	"os"
-	"strconv"
 	"runtime/debug"
+	"strconv"
 	"time"
 
 	"github.com/google/uuid"
